@@ -742,6 +742,9 @@ def w_entry(rep, ex: Explorer, be: Backend, strict=True, extended=False, prefix=
     def strict_obj(p, rc, mode):
         objs = rec_objects(be, rc)
         ok = len(objs) == n_objects
+        if not objs:
+            # (none among the arguments: they travel inside something else - a record, a tuple - that this rule does not open)
+            raise AnalysisError(f"{site}:{rc.node.lineno}: no constraint object among the arguments of the recursive call; the rule cannot see what the recursion starts from")
         rep.check(ok, f"{prefix}.start", f"{site}:{rc.node.lineno}", "constraint objects", f"{n_objects} constraint object(s) handed to the recursion", extracted=str(len(objs)), required=str(n_objects), function=site)
         oids = [s_[1] for s_ in rc.snap if s_[0] in ("wcnf", "solver")]
         rep.check(len(set(oids)) == len(oids), f"{prefix}.start", f"{site}:{rc.node.lineno}", "separate constraint objects", "each side has a constraint object of its own (what is fixed for one side must not constrain the other)",
